@@ -131,7 +131,8 @@ def gen_case(rng, n, kind, nkeys):
 
 def lengths(ck, thorough):
     if thorough:
-        return list(range(0, 1025)) + [4095, 4096, 65537]
+        return list(range(0, 1101)) + [2047, 2048, 2049, 4095, 4096, 4097, 8191, 8192, 8193,
+                                       65535, 65536, 65537]
     return list(range(0, 301)) + [383, 384, 385, 1023, 1024, 4095, 4096, 65537]
 
 
@@ -180,17 +181,27 @@ def par_compare(ck, hcmd, dcmd, cases, label, chunk=24, workers=None):
     chs = list(vf.chunks(cases, chunk))
 
     def one(ch):
-        lines = []
-        for c in ch:
+        lines, owner = [], []
+        for ci, c in enumerate(ch):
             lines.append("#case")
-            lines.extend(c)
+            owner.append((ci, None))
+            for l in c:
+                lines.append(l)
+                owner.append((ci, l))
         cl, ml, _ = ck.both(hcmd, dcmd, "\n".join(lines) + "\n", 1800)
-        return ck.first_diff(cl, ml), len(lines)
+        d = ck.first_diff(cl, ml)
+        return d, len(lines), (owner[min(d[0], len(owner) - 1)] if d else None)
 
+    # submit the most expensive chunks first, but *report* failures smallest-first so that the
+    # replay is the smallest failing buffer of the run
+    order = sorted(range(len(chs)), key=lambda i: -sum(len(c[0]) for c in chs[i]))
+    res = [None] * len(chs)
     with cf.ThreadPoolExecutor(max_workers=workers) as ex:
-        res = list(ex.map(one, chs))
+        futs = {i: ex.submit(one, chs[i]) for i in order}
+        for i, f in futs.items():
+            res[i] = f.result()
     nfail = 0
-    for ch, (d, nlines) in zip(chs, res):
+    for ch, (d, nlines, where) in zip(chs, res):
         if d is None:
             ck.cov["op_lines"] = ck.cov.get("op_lines", 0) + nlines
             ck.cov["cases"] = ck.cov.get("cases", 0) + len(ch)
@@ -201,8 +212,22 @@ def par_compare(ck, hcmd, dcmd, cases, label, chunk=24, workers=None):
                     ck.distinct((dkey, op))
                     k = op.split(" ")[0]
                     ck.cov["by_function"][k] = ck.cov["by_function"].get(k, 0) + 1
-        elif nfail < 4:
-            nfail += ck.compare_cases(hcmd, dcmd, ch, label=label)
+            continue
+        if nfail >= 2:
+            continue
+        nfail += 1
+        ci, opline = where
+        case = ch[ci]
+        # ops are independent given the buffer: the minimal case is [data, failing op]
+        cand = [case[0], opline] if opline and opline != case[0] else list(case)
+        k = ck.fails(hcmd, dcmd, cand)
+        if k is None:
+            ck.compare_cases(hcmd, dcmd, [case], label=label, max_failures=1)
+            continue
+        ck.count(1)
+        cl, ml, err = ck.both(hcmd, dcmd, "#case\n" + "\n".join(cand) + "\n", 300)
+        ck.report(k, {"label": label, "ops": cand, "impl": cl[-6:], "model": ml[-6:],
+                      "stderr": vf.san_summary(err)})
     return nfail
 
 
@@ -220,9 +245,9 @@ def run(ck):
         "published test vectors typed into checks/C16.py:golden() and Props/C16.lean (tests)"]
     ck.cov["rule"] = (
         "for every length in the tier's set (quick: 0..300 + 383..385,1023,1024,4095,4096,65537; thorough: "
-        "0..1024 + 4095,4096,65537) several buffers (random + rotating structured kinds: zero, ff, incr, "
+        "0..1100 + 2047..2049,4095..4097,8191..8193,65535..65537) several buffers (random + rotating structured kinds: zero, ff, incr, "
         "incr128, onebit, alt55aa, lowentropy); per buffer one l3 op and, per key set, one crc/crcinc/sip/"
-        "spooky/xxh/mem op with random or boundary keys (quick 8, thorough 64 key sets per length). "
+        "spooky/xxh/mem op with random or boundary keys (quick 3 buffers x 4 key sets, thorough 8 buffers x 16 key sets per length; 2 x 2 above 4096 bytes). "
         "evaluations = hash op lines compared (model vs implementation); each is executed by the harness at "
         "32 placements (start offsets 0..15 from a left PROT_NONE page, end offsets 0..15 from a right one, "
         "slack poisoned + refilled with garbage) and compared with an independent reference. "
@@ -265,7 +290,7 @@ def run(ck):
         ngold += 1
         if cl[1:] != want or ml[1:] != want:
             kind = "obs" if cl[1:] != want else "int"
-            ck.report(kind, {"label": "published-vector", "ops": ops, "impl": cl[1:], "model": ml[1:],
+            ck.report(kind, {"label": "published-vector", "ops": ops, "impl": cl, "model": ml,
                              "expected": want, "stderr": vf.san_summary(err)})
             if kind == "int":
                 ck.broken.append("model disagrees with a published vector: " + " / ".join(ops)[:120])
@@ -274,9 +299,12 @@ def run(ck):
     rng = vf.SplitMix(ck.seed * 1000003 + 16)
     par_compare(ck, hcmd, dcmd, vf.corpus_cases(PID), "corpus", chunk=4)
 
-    intensify = (not ck.proof_ok) or bool(ck.violations)
+    # a theorem / the table tie no longer checks, or only the model disagrees with a published
+    # vector, and no concrete failing input of the implementation is known yet: search harder
+    have_obs = any(v["kind"] == "obs" for v in ck.violations)
+    intensify = ((not ck.proof_ok) or bool(ck.violations)) and not have_obs
     thorough = (not ck.quick()) or intensify
-    nbuf = 4 if thorough else 2
+    nbuf = 8 if thorough else 3
     nkeys = 16 if thorough else 4
     cases = []
     for i, n in enumerate(lengths(ck, thorough)):
@@ -285,10 +313,8 @@ def run(ck):
         big = n > 4096
         for kind in kinds[:2] if big else kinds:
             cases.append(gen_case(rng, n, kind, 2 if big else nkeys))
-    for c in (cases[1], cases[len(cases) // 2]):
+    for c in (cases[13 * nbuf], cases[len(cases) // 3], cases[len(cases) // 2 + 1]):
         ck.sample([l if len(l) < 160 else l[:150] + "…(%d chars)" % len(l) for l in c[:8]])
-    # big cases first (longest running), then the rest
-    cases.sort(key=lambda c: -len(c[0]))
     par_compare(ck, hcmd, dcmd, cases, "lengths")
 
     try:
